@@ -554,6 +554,14 @@ Definition gen_matrix_at (f : list nat -> R) (I : list nat) (a0 a1 : nat) : list
             | _ => rO
             end.
 
+(* modek_tprod(B, k, X), tensor.py:150-167: contraction of axis k of X with the columns of B, the new
+   axis staying in position k:  Y[i_0..i_k..] = sum_j B[i_k, j] X[i_0..j..].  The correspondence run
+   evaluates it as apply_tprod with k None placeholders (full_tprod); Proofs.modek_spec shows that the
+   two coincide. *)
+Definition modek_entry (B : mat) (k : nat) (f : list nat -> R) (idx : list nat) : R :=
+  sumn (mc B) (fun j => rmul (me B (nth k idx 0) j) (f (set_nth idx k j))).
+Definition modek_ops (B : mat) (k : nat) : list (option mat) := repeat None k ++ [Some B].
+
 (* ------------------------------------------------------------------ *)
 (* lowrank_cy.pyx:4-31 and one cross step of lowrank.aca (lowrank.py:104-134) *)
 (* ------------------------------------------------------------------ *)
